@@ -52,7 +52,9 @@ def run_one(args):
             verdict = "compile-error"
         else:
             real = [f["function"] for m in mods for f in m["function-breakdown"] if not f["success"] and "reach_canary_" not in f["function"]]
-            verdict = "KILLED " + ",".join(x.split("::")[-1] for x in real[:3]) if real else "SURVIVED"
+            vac = [f["function"].split("::")[-1] for m in mods for f in m["function-breakdown"] if f["success"] and "reach_canary_" in f["function"]]
+            # a reachability canary that verifies: the mutated function can no longer succeed (the check reports undecided: liveness, not a property violation)
+            verdict = "KILLED " + ",".join(x.split("::")[-1] for x in real[:3]) if real else ("VACUOUS " + ",".join(vac[:2]) if vac else "SURVIVED")
     except Exception as e:
         verdict = "undecided " + str(e)[:60]
     shutil.rmtree(root, ignore_errors=True)
